@@ -1130,3 +1130,27 @@ def index_insert_unconditional(run, R="TAB-idx"):
         work.extend(f.succs(x))
     run.check(bool(pushes) and not (seen & rets), R, R + "|writer|every-rule-listed", f.loc(), "RuledefMap::insert lists the rule it is given on every path",
               "RuledefMap::insert can return without having listed the rule it was given: a rule missing from the prefix index is only found with --debug-no-optimize-matcher" if pushes else "mechanism not found: the push of the new index entry")
+
+
+def sk_flag_fresh(run, R="SK"):
+    """what the static analysis says about a match depends on the match *and* on the place where the instruction stands (the same
+    text `.t` names another symbol under another label): in match_all the `statically known` flag and the static size of every
+    match are the answers of get_match_statically_known / get_match_static_size for this very match under the current symbol
+    context - not a value remembered for an instruction with the same text"""
+    from rules_sym import deep
+    f = run.anchor(R, "asm::matcher::match_all")
+    if f is None:
+        return
+    n, bad = 0, []
+    for bi, si, st in f.stmts():
+        if st["k"] == "assign" and st["place"]["p"] and isinstance(st["place"]["p"][-1], dict) and st["place"]["p"][-1].get("name") in ("encoding_statically_known", "encoding_size") \
+                and f.local_name(st["place"]["l"]) != "instr" and "instructions" not in deep(f, {"copy": {"l": st["place"]["l"], "p": []}}, 6):
+            n += 1
+            d = deep(f, st["rv"].get("op") or st["rv"], 10)
+            fresh = bool(re.match(r"^(Option::unwrap_or\()?matcher::get_match_(statically_known|static_size)\(", d)) and "HashMap" not in d and "BTreeMap" not in d
+            if st["place"]["p"][-1]["name"] == "encoding_statically_known":
+                fresh = fresh and "symbol_ctx" in d
+            if not fresh:
+                bad.append("%s = %s" % (st["place"]["p"][-1]["name"], d[:70]))
+    run.check(n >= 2 and not bad, R, R + "|match-all|flags-fresh", f.loc(), "every match gets the static analysis' own answer for itself under the current symbol context (%d store(s))" % n,
+              "match_all stores static information that is not the analysis' answer for this match at this place (%s): an instruction whose text was seen before inherits the flags computed under another label, where the same local name is another symbol" % ("; ".join(bad) or "stores not found"))
